@@ -7,9 +7,13 @@
     [bitmap.SafeGet]    [ws; i]        any int32 i              -> [SafeGet; SafeGet1]
     [bitmap.OfMany]     [subs; sizes]                           -> words
     [bitmap.Builder]    [n; [op...]]   op = [0; ps; size] (Extend) | [1; p; v] (Set)
-                                       -> [[Words; Offset] after NewBuilder and after every call] *)
+                                       -> [[Words; Offset] after NewBuilder and after every call]
+    widening (neighbouring code of package bitmap):
+    [bitmap.Mask]       [i]            any int i                -> [Mask[i]; RMask[i]]           (P outside 0..64)
+    [bitmap.Bit]        [i]            any int i                -> [MaskUpto[i]; RMaskUpto[i]; Bit[i]; RBit[i]]  (P outside 0..63) *)
 From Coq Require Import ZArith List Bool String.
-From Low Require Import Lib.Bits Lib.BitSeq Lib.Val Model.BuilderOps Model.BitmapOf Spec.OfSpec.
+From Low Require Import Lib.Bits Lib.BitSeq Lib.Val Model.BuilderOps Model.BitmapOf Spec.OfSpec
+  Model.BitmapMask Spec.MaskSpec.
 Import ListNotations.
 Open Scope string_scope.
 Open Scope Z_scope.
@@ -50,7 +54,7 @@ Fixpoint builder_hist_ok (abs_states : list abs) (obs : list val) : bool :=
   | _, _ => false
   end.
 
-Definition ops_C12 : list opdef := [
+Definition ops_C12_core : list opdef := [
   {| op_name := "bitmap.Of";
      op_run := fun a => match a with
        | [ps; opt] => match as_zs ps, as_opt opt with
@@ -149,3 +153,28 @@ Definition ops_C12 : list opdef := [
            | _, _ => false end
        | _ => false end |}
 ].
+
+(** * widening: the exported mask tables (bitmap/mask.go), read by Get/SafeGet (Bit) and by C01/C02/C13/C14 *)
+Definition vmask (o : option (Z * Z)) : val :=
+  match o with Some (a, b) => VL [VZ a; VZ b] | None => VPanic end.
+Definition vbit (o : option (Z * Z * Z * Z)) : val :=
+  match o with Some (a, b, c, d) => VL [VZ a; VZ b; VZ c; VZ d] | None => VPanic end.
+
+Definition ops_C12_wide : list opdef := [
+  {| op_name := "bitmap.Mask";
+     op_run := fun a => match a with
+       | [i] => match as_z i with Some i => vmask (mask_at i) | None => VBad end
+       | _ => VBad end;
+     op_spec := fun_spec (fun a => match a with
+       | [i] => match as_z i with Some i => vmask (spec_mask_at i) | None => VBad end
+       | _ => VBad end) |};
+  {| op_name := "bitmap.Bit";
+     op_run := fun a => match a with
+       | [i] => match as_z i with Some i => vbit (bit_at i) | None => VBad end
+       | _ => VBad end;
+     op_spec := fun_spec (fun a => match a with
+       | [i] => match as_z i with Some i => vbit (spec_bit_at i) | None => VBad end
+       | _ => VBad end) |}
+].
+
+Definition ops_C12 : list opdef := ops_C12_core ++ ops_C12_wide.
